@@ -374,6 +374,10 @@ def r11_6(ctx):
 
 RULES = [r11_1, r11_2, r11_3, r11_4, r11_5, r11_6, r11_7]
 
+from .upstream import upstream_facts  # noqa: E402
+
+RULES_THOROUGH = RULES + [upstream_facts]
+
 LEVEL_TEXT = (
     "Static decision of the mechanism that makes in-place operations local: single mutation point for the expression "
     "pointer (who-may-write), cache-invalidation coverage, freshly-constructed-expression check at every _replace_expr "
